@@ -213,6 +213,10 @@ impl<T: Read + Seek> E57Reader<T> {
     }
 
     fn extract_xml(reader: &mut PagedReader<T>, offset: u64, length: usize) -> Result<Vec<u8>> {
+        // The header of a file that was never finalized has no XML section yet
+        if length == 0 {
+            Error::invalid("The XML section is empty, the file is incomplete")?
+        }
         if length > MAX_XML_SIZE {
             Error::not_implemented(format!(
                 "XML sections larger than {MAX_XML_SIZE} bytes are not supported"
